@@ -1,4 +1,5 @@
 import RegalModel.Model.FileProvider
+import RegalModel.Model.Cleanup
 /-!
 # C13 — Fixing conserves files: nothing lost or overwritten, conflicts honoured
 -/
@@ -366,3 +367,126 @@ theorem writeout_written (p : Provider) (d : Disk) (g : String) (e : Entry) (hm 
   exact this _ _ hmn hm
 
 end RegalModel.FileProvider
+
+namespace RegalModel.Cleanup
+open List
+
+/-- **cleanup_entries**: every entry of a directory that `DirCleanUpPaths` returns is the moved file itself or a
+directory returned before it — so removing the file and then the directories in the returned order never removes a
+directory that still contains anything else ("emptied directories are removed only if really empty"). For every
+file system, target and preserve list. -/
+theorem cleanLoop_entries (fs : FS) (target : Path) (pres : List Path) :
+    ∀ fuel dir last, ∀ d ∈ cleanLoop fs target pres fuel dir last, ∀ e ∈ entries fs d,
+      e = target ∨ some e = last ∨ e ∈ cleanLoop fs target pres fuel dir last := by
+  intro fuel
+  induction fuel with
+  | zero => intro dir last d hd; simp [cleanLoop] at hd
+  | succ f ih =>
+    intro dir last d hd e he
+    unfold cleanLoop at hd ⊢
+    split at hd
+    · cases hd
+    · split at hd
+      · rename_i hp hall
+        simp only [hp, hall, if_true, Bool.false_eq_true, if_false]
+        simp only [List.mem_cons] at hd
+        rcases hd with rfl | hd
+        · have := (List.all_eq_true.1 hall) e he
+          simp only [Bool.or_eq_true, beq_iff_eq] at this
+          rcases this with h | h
+          · exact Or.inl h
+          · exact Or.inr (Or.inl h)
+        · rcases ih (parent dir) (some dir) d hd e he with h | h | h
+          · exact Or.inl h
+          · right; right
+            simp only [Option.some.injEq] at h
+            rw [h]; exact List.mem_cons_self
+          · right; right; exact List.mem_cons_of_mem _ h
+      · cases hd
+
+theorem cleanup_entries (fs : FS) (target : Path) (preserve : List Path) :
+    ∀ d ∈ dirCleanUpPaths fs target preserve, ∀ e ∈ entries fs d, e = target ∨ e ∈ dirCleanUpPaths fs target preserve := by
+  intro d hd e he
+  rcases cleanLoop_entries fs target (preserveDirs preserve) _ _ none d hd e he with h | h | h
+  · exact Or.inl h
+  · cases h
+  · exact Or.inr h
+
+/-- **cleanup_never_preserved**: no returned directory is a preserved one (a project root or an ancestor of one) -/
+theorem cleanLoop_not_preserved (fs : FS) (target : Path) (pres : List Path) :
+    ∀ fuel dir last, ∀ d ∈ cleanLoop fs target pres fuel dir last, pres.contains d = false := by
+  intro fuel
+  induction fuel with
+  | zero => intro dir last d hd; simp [cleanLoop] at hd
+  | succ f ih =>
+    intro dir last d hd
+    unfold cleanLoop at hd
+    split at hd
+    · cases hd
+    · rename_i hp
+      split at hd
+      · simp only [List.mem_cons] at hd
+        rcases hd with rfl | hd
+        · simpa using hp
+        · exact ih _ _ d hd
+      · cases hd
+
+theorem mem_ancestors (p q : Path) : q ∈ ancestors p ↔ q ≠ [] ∧ q <+: p := by
+  unfold ancestors
+  simp only [List.mem_map, List.mem_range]
+  constructor
+  · rintro ⟨i, hi, rfl⟩
+    refine ⟨?_, List.take_prefix _ _⟩
+    intro h
+    have := congrArg List.length h
+    simp only [List.length_take, List.length_nil] at this
+    omega
+  · rintro ⟨hne, t, rfl⟩
+    refine ⟨t.length, ?_, ?_⟩
+    · have : q.length ≠ 0 := fun h => hne (List.length_eq_zero_iff.1 h)
+      simp only [List.length_append]; omega
+    · simp only [List.length_append, Nat.add_sub_cancel]
+      simp
+
+/-- a returned directory is never a project root nor an ancestor of one (the root directory `/` aside, which the Go
+code does not put into the preserve set) -/
+theorem cleanup_never_preserved (fs : FS) (target : Path) (preserve : List Path) (r : Path) (hr : r ∈ preserve) :
+    ∀ d ∈ dirCleanUpPaths fs target preserve, d ≠ [] → ¬ d <+: r := by
+  intro d hd hne hpre
+  have h1 := cleanLoop_not_preserved fs target (preserveDirs preserve) _ _ none d hd
+  have h2 : d ∈ preserveDirs preserve := by
+    unfold preserveDirs
+    rw [List.mem_flatMap]
+    exact ⟨r, hr, (mem_ancestors r d).2 ⟨hne, hpre⟩⟩
+  have : (preserveDirs preserve).contains d = true := by simpa using h2
+  rw [this] at h1; cases h1
+
+/-- **cleanup_chain**: the returned directories are the successive parents of the target, deepest first -/
+theorem cleanLoop_chain (fs : FS) (target : Path) (pres : List Path) :
+    ∀ fuel dir last i, ∀ d, (cleanLoop fs target pres fuel dir last)[i]? = some d → d = dir.take (dir.length - i) := by
+  intro fuel
+  induction fuel with
+  | zero => intro dir last i d h; simp [cleanLoop] at h
+  | succ f ih =>
+    intro dir last i d h
+    unfold cleanLoop at h
+    split at h
+    · simp at h
+    · split at h
+      · cases i with
+        | zero => simp at h; subst h; simp
+        | succ i =>
+          simp only [List.getElem?_cons_succ] at h
+          have := ih (parent dir) (some dir) i d h
+          rw [this]
+          unfold parent
+          rw [List.dropLast_eq_take, List.take_take, List.length_take]
+          congr 1
+          omega
+      · simp at h
+
+/-! non-vacuity: a/b/t.rego is moved away; a/b is emptied, a still holds a/x.rego, root a/ preserved anyway -/
+example : dirCleanUpPaths { files := [["w", "a", "b", "t.rego"], ["w", "e", "x.rego"]], dirs := [] } ["w", "a", "b", "t.rego"] [["w", "e"]] =
+    [["w", "a", "b"], ["w", "a"]] := by decide
+
+end RegalModel.Cleanup
